@@ -220,6 +220,11 @@ class ExprMixin:
             elif isinstance(b, VDict):
                 r = z3.Or([self.v_eq(a, VStr(k) if isinstance(k, str) else VInt(k), line) for k in b.d]
                           or [z3.BoolVal(False)])
+            elif isinstance(b, VStr) and isinstance(a, VStr):  # substring test
+                if a.s is not None and b.s is not None:
+                    r = z3.BoolVal(a.s in b.s)
+                else:
+                    r = z3.Contains(b.t if b.s is None else z3.StringVal(b.s), a.t if a.s is None else z3.StringVal(a.s))
             else:
                 raise OutOfSubset(f"line {line}: 'in' on {b!r}")
             return z3.Not(r) if isinstance(op, ast.NotIn) else r
@@ -381,6 +386,8 @@ class ExprMixin:
                 return VInt({"u1": 1, "u2": 2, "i4": 4, "f4": 4, "f8": 8, "i8": 8, "b1": 1, "c8": 8}[base.name])
             if attr == "type":
                 return base
+            if attr == "kind" and base.name and base.name[0] in "uifbc":
+                return VStr(base.name[0])
         if type(base).__name__ == "VSuper":
             mod_ = self.src.module(base.file)
             for b in mod_.classes[base.cls][1]:
